@@ -290,7 +290,7 @@ struct ReplyWorld : World {
 	// ---- layer L2: two real connections (stream backend) that both send requests and serve the peer's
 	void gen_conn(Rng &r, Plan &p, int tier) {
 		p.set("layer", 2);
-		p.set("idlen", r.range(1, 4));
+		p.set("idlen", r.chance(1, 8) ? 0 : r.range(1, 4));      // width 0: a connection without ids, everything is one-way
 		static const int caps[] = {5, 32, 4096, 4096};
 		p.set("chancap", r.pick(caps));
 		bool syncm = r.chance(1, 3);
@@ -315,6 +315,7 @@ struct ReplyWorld : World {
 		int handled = 0, callbacks = 0, cancelled = 0;
 		int allowed_handled = 1, allowed_callbacks = 1;   // datagram layer: number of request / reply datagrams delivered
 		int replies_made = 0; bool net_faulted = false;
+		bool discarded = false;             // dispatched by the peer without handler
 		bool transport_gone = false;        // the responder's connection was moved to another socket after this request was dispatched
 		int cb_result = 0;                  // what the requester's reply handler returns (a failing handler must not disturb later replies)
 		bool late_dropped = false;
@@ -322,7 +323,7 @@ struct ReplyWorld : World {
 		reply_context_detached *late = 0;    // handle of a deferred answer, held by the peer's handler
 	};
 	struct Peer { const char *name; connection *con = 0; stream *srm = 0; int fd = -1, rchan = -1, wchan = -1; std::vector<CReq> sent; };
-	struct ConnCtx { Peer peer[2]; Log *log; Stats *st; unsigned idlen; };
+	struct ConnCtx { Peer peer[2]; Log *log; Stats *st; unsigned idlen; int discards[2] = {0, 0}; };
 	static std::string answer_text(const CReq &q) { char b[32]; snprintf(b, sizeof(b), "r%u;", q.serial); return b; }
 	// reply callback registered with mpt_connection_await: arg = side << 16 | (index + 1)
 	static int conn_reply_cb(void *arg, const message *msg) {
@@ -335,7 +336,11 @@ struct ReplyWorld : World {
 		message m = *msg; size_t len = mpt_message_length(&m); Bytes body(len); mpt_message_read(&m, len, body.data());
 		C.log->ev("    %s: reply for request r%u (id %llx): %zu bytes [%s]", C.peer[side].name, q.serial, (unsigned long long) q.cid, len, hex(body, 16).c_str());
 		if (++q.callbacks > q.allowed_callbacks) { pend("second-delivery", "requester %s got %d answers for request r%u", C.peer[side].name, q.callbacks, q.serial); return 0; }
-		if (!q.handled) { pend("wrong-requester", "requester %s got an answer for request r%u which the peer has not seen", C.peer[side].name, q.serial); return 0; }
+		if (!q.handled) {
+			// the peer may have dispatched it without a handler (discarding): that answers with the bare id
+			if (C.discards[side ^ 1] && body.empty()) { q.handled = 1; q.discarded = true; C.st->hit("probe:discarded_request_answered"); return q.cb_result; }
+			pend("wrong-requester", "requester %s got an answer for request r%u which the peer has not seen", C.peer[side].name, q.serial); return 0; }
+		if (q.discarded) return q.cb_result;
 		if (q.faulted) return q.cb_result;
 		std::string want = answer_text(q);
 		bool text = std::search(body.begin(), body.end(), want.begin(), want.end()) != body.end();
@@ -382,7 +387,7 @@ struct ReplyWorld : World {
 	}
 	void exec_conn(const Plan &p, Log &log, Stats &st) {
 		ConnCtx C; C.log = &log; C.st = &st; CCp = &C;
-		unsigned idlen = C.idlen = (unsigned) std::min<int64_t>(std::max<int64_t>(p.get("idlen", 2), 1), 8);
+		unsigned idlen = C.idlen = (unsigned) std::min<int64_t>(std::max<int64_t>(p.get("idlen", 2), 0), 8);
 		size_t chancap = (size_t) std::min<int64_t>(std::max<int64_t>(p.get("chancap", 4096), 1), 1 << 20);
 		bool use_sync = p.get("sync") != 0, big = p.get("big") != 0;
 		int ab = simio::new_chan(chancap), ba = simio::new_chan(chancap);
@@ -406,17 +411,18 @@ struct ReplyWorld : World {
 			for (int s = 0; s < 2; ++s) { const std::vector<int> &b = s ? b1 : b0; for (size_t k = 0; k < C.peer[s].sent.size(); ++k) if (C.peer[s].sent[k].handled && (k >= b.size() || !b[k])) C.peer[s].sent[k].faulted = true; }
 		};
 		auto snapshot = [&](int s) { std::vector<int> v; for (auto &r : C.peer[s].sent) v.push_back(r.handled); return v; };
-		auto serve = [&](int side, AllocFault af) -> int {
+		auto serve = [&](int side, AllocFault af, bool discard = false) -> int {
 			Peer &P = C.peer[side]; uint64_t failn = af.n;
 			int n; { Sut s; n = mpt_stream_poll(P.srm, POLLIN, 0); }
 			int d, guard = 0;
 			do {
 				std::vector<int> b0 = snapshot(0), b1 = snapshot(1);
-				bool fired; { Sut s(failn, af.from); SUT_GUARD_ABORT(d = mpt_connection_dispatch(P.con, conn_handler, (void *) (uintptr_t) side)); fired = g.fired; }
+				bool fired; { Sut s(failn, af.from); if (discard) { SUT_GUARD_ABORT(d = mpt_connection_dispatch(P.con, 0, 0)); } else { SUT_GUARD_ABORT(d = mpt_connection_dispatch(P.con, conn_handler, (void *) (uintptr_t) side)); } fired = g.fired; }
 				check_pending();
 				if (fired) { st.hit(af.from ? "fault:allocfail_persistent_in_dispatch" : "fault:allocfail_in_dispatch"); if (!af.from) failn = 0; mark_faulted(b0, b1); }
 			} while (d >= 0 && (d & 0x10000) && ++guard < 64);
-			log.ev("SERVE %s poll=%d dispatch=%d", P.name, n, d);
+			if (discard) { ++C.discards[side]; st.hit("probe:dispatch_without_handler"); }
+			log.ev("SERVE %s%s poll=%d dispatch=%d", P.name, discard ? " (no handler: discard)" : "", n, d);
 			return d;
 		};
 		auto flush = [&](int side, int fault, int64_t fa) -> int {
@@ -477,7 +483,7 @@ struct ReplyWorld : World {
 				break;
 			}
 			case OP_DELIVER: { size_t n = simio::deliver(P.wchan, (size_t) std::max<int64_t>(op.c, 1)); log.ev("DELIVER from %s: %zu", P.name, n); if (n == 1) st.hit("fault:single_byte_delivery"); else if (n) st.hit("fault:segment_cut"); outcome = n > 0; break; }
-			case OP_SERVE: outcome = serve(side, alloc_fault(op, FL_ALLOC)) >= 0; break;
+			case OP_SERVE: outcome = serve(side, alloc_fault(op, FL_ALLOC), (op.a & 0xf00) == 0x300) >= 0; break;
 			case OP_FLUSH: if (op.fault) st.hit(std::string("fault:writev_") + FAULTS[op.fault]); flush(side, op.fault, op.fa); outcome = 1; break;
 			case OP_DREPLY2: {
 				// side answers one of the requests it deferred (sent by the other side)
@@ -518,7 +524,7 @@ struct ReplyWorld : World {
 		}
 		for (int s = 0; s < 2; ++s) for (auto &q : C.peer[s].sent) {
 			if (!q.sent) continue;
-			if (!q.handled && !q.faulted) fail("request-lost", "request r%u of %s was sent completely but never dispatched at the peer", q.serial, C.peer[s].name);
+			if (!q.handled && !q.faulted && !C.discards[s ^ 1]) fail("request-lost", "request r%u of %s was sent completely but never dispatched at the peer", q.serial, C.peer[s].name);
 			if (q.awaited && q.handled && !q.faulted && q.callbacks != 1 && !(q.late_dropped && q.callbacks == 0 && false))
 				fail("no-reply", "awaited request r%u of %s (behaviour %d) was dispatched but its callback ran %d times", q.serial, C.peer[s].name, q.behaviour, q.callbacks);
 			if (!q.awaited && q.callbacks) fail("wrong-requester", "one-way request r%u got an answer", q.serial);
@@ -673,7 +679,7 @@ struct ReplyWorld : World {
 	// ---- layer L3: two real mpt_output_remote objects on a simulated datagram socket pair (loss, duplication, reordering)
 	void gen_dgram(Rng &r, Plan &p, int tier) {
 		p.set("layer", 3);
-		p.set("idlen", r.range(1, 4));
+		p.set("idlen", r.chance(1, 8) ? 0 : r.range(1, 4));      // width 0: a connection without ids, everything is one-way
 		int nops = (int) r.range(1, tier ? 80 : 40); bool net = r.chance(2, 3), af = r.chance(1, 3);
 		for (int i = 0; i < nops; ++i) {
 			Op op; unsigned k = (unsigned) r.below(16);
@@ -694,7 +700,7 @@ struct ReplyWorld : World {
 	struct DPeer { input *in = 0; object *obj = 0; output *out = 0; connection *con = 0; int fd = -1, rchan = -1, wchan = -1; };
 	void exec_dgram(const Plan &p, Log &log, Stats &st) {
 		ConnCtx C; C.log = &log; C.st = &st; CCp = &C;
-		unsigned idlen = C.idlen = (unsigned) std::min<int64_t>(std::max<int64_t>(p.get("idlen", 2), 1), 8);
+		unsigned idlen = C.idlen = (unsigned) std::min<int64_t>(std::max<int64_t>(p.get("idlen", 2), 0), 8);
 		int ab = simio::new_dchan(), ba = simio::new_dchan();
 		DPeer D[2];
 		C.peer[0].name = "A"; C.peer[1].name = "B";
@@ -745,16 +751,17 @@ struct ReplyWorld : World {
 				if (!reply) { if (!q) fail("invented", "%s sent a datagram that is neither a reply nor one of its requests (%zu bytes [%s])", C.peer[side].name, d.size(), hex(d, 16).c_str()); continue; }
 				if (!q) fail("foreign-id", "%s sent a reply whose id no request of the peer carries [%s]", C.peer[side].name, hex(d, 12).c_str());
 				if (q->transport_gone) fail("wrong-requester", "the answer to request r%u went out on a socket the connection was given after the request had arrived", q->serial);
+				if (q->replies_made == q->handled && C.discards[side] && d.size() == idlen) { ++q->handled; q->discarded = true; }     // answered by a dispatch without handler
 				if (++q->replies_made > q->handled) fail("second-reply", "request r%u was dispatched %d time(s) but %d replies went out", q->serial, q->handled, q->replies_made);
 			}
 		};
-		auto serve = [&](int side, AllocFault af) -> int {
-			DPeer &P = D[side]; int d = 0; uint64_t failn = af.n;
+		auto serve = [&](int side, AllocFault af, bool discard = false) -> int {
+			DPeer &P = D[side]; int d = 0; uint64_t failn = af.n; if (discard) { ++C.discards[side]; st.hit("probe:dispatch_without_handler"); }
 			for (int guard = 0; guard < 16; ++guard) {
 				int n; { Sut s; n = P.in->next(POLLIN); }
 				if (!(P.con->out.state & 0x20 /* received */) && n <= 0 && simio::dchan(P.rchan)->avail.empty()) break;
 				std::vector<int> b0 = snapshot(0), b1 = snapshot(1);
-				bool fired; { Sut s(failn, af.from); SUT_GUARD_ABORT(d = P.in->dispatch(conn_handler, (void *) (uintptr_t) side)); fired = g.fired; }
+				bool fired; { Sut s(failn, af.from); if (discard) { SUT_GUARD_ABORT(d = P.in->dispatch(0, 0)); } else { SUT_GUARD_ABORT(d = P.in->dispatch(conn_handler, (void *) (uintptr_t) side)); } fired = g.fired; }
 				check_pending();
 				if (fired) { st.hit(af.from ? "fault:allocfail_persistent_in_dispatch" : "fault:allocfail_in_dispatch"); if (!af.from) failn = 0; mark_faulted(b0, b1); }
 				log.ev("SERVE %s next=%d dispatch=%d", C.peer[side].name, n, d);
@@ -826,7 +833,7 @@ struct ReplyWorld : World {
 				break;
 			}
 			case OP_DELIVER: outcome = deliver(side, (size_t) op.c, op.fault); break;
-			case OP_SERVE: outcome = serve(side, alloc_fault(op, FL_ALLOC)) >= 0; break;
+			case OP_SERVE: outcome = serve(side, alloc_fault(op, FL_ALLOC), (op.a & 0xf00) == 0x300) >= 0; break;
 			case OP_FLUSH: { int n; { Sut s; n = P.in->next(POLLOUT); } log.ev("FLUSH %s -> %d", Q.name, n); audit_wire(side); outcome = 1; break; }
 			case OP_DREPLY2: {
 				std::vector<CReq *> pendg; for (auto &r : C.peer[side ^ 1].sent) if (r.late) pendg.push_back(&r);
@@ -882,6 +889,8 @@ struct ReplyWorld : World {
 		}
 		for (int s = 0; s < 2; ++s) for (auto &q : C.peer[s].sent) {
 			if (!q.sent || q.faulted || q.net_faulted) continue;
+			if (C.discards[s ^ 1] && (q.discarded || !q.handled)) continue;      // consumed by a dispatch without handler
+			if (C.discards[s]) continue;                                           // the requester itself threw input away, replies included
 			if (q.handled != 1) fail("request-lost", "request r%u of %s reached the peer once but was dispatched %d times", q.serial, C.peer[s].name, q.handled);
 			if (q.awaited && q.replies_made != 1) fail("no-reply", "awaited request r%u of %s (behaviour %d) was dispatched but %d replies went out", q.serial, C.peer[s].name, q.behaviour, q.replies_made);
 			if (q.awaited && q.callbacks != 1) fail("no-reply", "awaited request r%u of %s (behaviour %d): the reply was delivered but the callback ran %d times", q.serial, C.peer[s].name, q.behaviour, q.callbacks);
